@@ -440,7 +440,20 @@ where
         x: &AssignedBigUint<F>,
         y: &AssignedBigUint<F>,
     ) -> Result<(AssignedBigUint<F>, AssignedBigUint<F>), Error> {
-        let (q_value, r_value) = x.value().zip(y.value()).map(|(x, y)| x.div_rem(&y)).unzip();
+        let (q_value, r_value) = x
+            .value()
+            .zip(y.value())
+            // We avoid a run-time error here by setting (q, r) = (0, 0) in case y = 0. This is
+            // not a soundness problem since, in that case, the resulting circuit is
+            // unsatisfiable, given that we require r < y below.
+            .map(|(x, y)| {
+                if y == BigUint::ZERO {
+                    (BigUint::ZERO, BigUint::ZERO)
+                } else {
+                    x.div_rem(&y)
+                }
+            })
+            .unzip();
 
         let q = self.assign_bounded(layouter, q_value, x.nb_bits())?;
         let r = self.assign_bounded(layouter, r_value, y.nb_bits())?;
